@@ -1080,6 +1080,8 @@ func zzC16CoerceAlias(t string) bool { return t == "byte" || t == "short-float" 
 // VerifC16Coerce: (coerce x T) for an object of kind k and the type symbol
 // with index ti (sorted class registry, then `list` and `t`): either signals a
 // condition or returns an object that is typep T; never a Go fault.
+// (C16-typep-nil-supertypes is repaired; the narrower C16-coerce-nil-vector is
+// what is left of its region here.)
 func VerifC16Coerce(k int, ti int) {
 	scope := slip.NewScope()
 	names := append(zzC16Classes(), "list", "t")
@@ -1098,6 +1100,9 @@ func VerifC16Coerce(k int, ti int) {
 	vrt.Reach("returned")
 	vrt.Carve("C16-coerce-alias-types", zzC16CoerceAlias(t))
 	vrt.Carve("C16-typep-nil-supertypes", x == nil)
+	// what remains of the former x == nil region after typep was repaired:
+	// (coerce nil 'vector) and (coerce nil 'octets) return nil itself
+	vrt.Carve("C16-coerce-nil-vector", x == nil && (t == "vector" || t == "octets"))
 	_, fromSB := x.(*slip.SignedByte)
 	vrt.Carve("C16-coerce-signed-to-unsigned", fromSB && t == "unsigned-byte")
 	tp := zzC16Typep(scope, r.obj, slip.Symbol(t))
